@@ -300,10 +300,18 @@ class TimeExprHarness(Harness):
     if kind == "concrete":
       cases = [("1.5s", Fraction(3, 2)), ("0.25h", Fraction(900)), ("10ms", Fraction(1, 100)), ("2.5m", Fraction(150)),
                ("01:02:03.250", Fraction(3723250, 1000)), ("100:00:00.1", 360000 + Fraction(1, 10)), ("15t", Fraction(15, 10)),
-               ("1.5f", Fraction(3, 50)), ("00:00:01", Fraction(1))]
-      c, want = cases[ex.choice("case", len(cases))]
-      got, exc = call(ex, imsc_utils.parse_time_expression, 10, Fraction(25), c)
-      ex.prove(exc is None and got == want, "C04:time-expression", {"syntax": "concrete", "_expr": c})
+               ("1.5f", Fraction(3, 50)), ("00:00:01", Fraction(1)),
+               # last frame of a second at every rate, fractional rates included (frames field = ceil(rate) - 1)
+               ("00:00:01:24", 1 + Fraction(24, 25)),
+               ("00:00:01:29", 1 + 29 / Fraction(30000, 1001), Fraction(30000, 1001)),
+               ("00:00:01:23", 1 + 23 / Fraction(24000, 1001), Fraction(24000, 1001)),
+               ("00:00:01:59", 1 + 59 / Fraction(60000, 1001), Fraction(60000, 1001)),
+               ("00:00:01:29", 1 + Fraction(29, 30), Fraction(30))]
+      case = cases[ex.choice("case", len(cases))]
+      c, want = case[0], case[1]
+      rate = case[2] if len(case) > 2 else Fraction(25)
+      got, exc = call(ex, imsc_utils.parse_time_expression, 10, rate, c)
+      ex.prove(exc is None and got == want, "C04:time-expression", {"syntax": "concrete", "_expr": c, "rate": str(rate)})
       return
     fr = self.RATES[ex.choice("rate", len(self.RATES))]
     if kind == "offset":
@@ -470,11 +478,19 @@ STYLE_DOCS = [
   ("diamond", '<styling><style xml:id="a" tts:color="red"/><style xml:id="b" style="a"/><style xml:id="c" style="a" tts:color="lime"/><style xml:id="d" style="b c"/></styling>',
    '<p style="d">X</p>', "p", "lime"),
   ("missing-reference", '<styling><style xml:id="s1" tts:color="red"/></styling>', '<p style="nope s1">X</p>', "p", "red"),
+  ("missing-reference-last", '<styling><style xml:id="s1" tts:color="red"/></styling>', '<p style="s1 nope">X</p>', "p", "red"),
+  ("missing-reference-middle", '<styling><style xml:id="s1" tts:color="red" tts:backgroundColor="blue"/><style xml:id="s2" tts:color="lime"/></styling>',
+   '<p style="s1 nope s2">X</p>', "p", "lime"),
   ("nested-region-style", '<layout><region xml:id="r1"><style tts:color="yellow"/></region></layout>', '<p region="r1">X</p>', "region", "yellow"),
   ("inline-over-nested-region", '<layout><region xml:id="r1" tts:color="blue"><style tts:color="yellow"/></region></layout>', '<p region="r1">X</p>', "region", "blue"),
   ("nested-over-referential-region", '<styling><style xml:id="s1" tts:color="red"/></styling><layout><region xml:id="r1" style="s1"><style tts:color="yellow"/></region></layout>',
    '<p region="r1">X</p>', "region", "yellow"),
   ("initial", '<styling><initial tts:color="cyan"/></styling>', '<p>X</p>', "initial", "cyan"),
+  # mixed content: text before, between and after child elements becomes anonymous spans of a parallel p, whatever the
+  # time container of the p's parent is
+  ("mixed-content-under-seq-div", "", '<div timeContainer="seq"><p>Hello <span>big</span> world</p></div>', "text", "Hello big world"),
+  ("mixed-content-nested-spans", "", '<p>a<span>b<span>c</span>d</span>e</p>', "text", "abcde"),
+  ("mixed-content-par-div", "", '<div timeContainer="par"><p>x<span timeContainer="par">y</span>z</p></div>', "text", "xyz"),
 ]
 
 
@@ -541,6 +557,17 @@ class StyleGraphHarness(Harness):
       return
     ex.witness("checked")
     C = styles.StyleProperties.Color
+    if where == "text":
+      p = [e for e in doc.get_body().dfs_iterator() if isinstance(e, model.P)][0]
+      got = "".join(t.get_text() for t in p.dfs_iterator() if isinstance(t, model.Text))
+      ex.prove(got == want, "C04:anonymous-span", dict(det, _got=got, _want=want))
+      isd, exc = call(ex, ISD.from_model, doc, Fraction(0))
+      if exc:
+        ex.fail("C18:snapshot-raises", dict(det, site=exc[1], exc=type(exc[0]).__name__, tags=["c04-styles"]))
+        return
+      shown = "".join(t.get_text() for r in isd.iter_regions() for t in r.dfs_iterator() if isinstance(t, model.Text))
+      ex.prove(shown == want, "C04:anonymous-span", dict(det, shown=True, _got=shown, _want=want))
+      return
     wantc = styles.NamedColors[want].value
     if where == "p":
       p = [e for e in doc.get_body().dfs_iterator() if isinstance(e, model.P)][0]
@@ -561,3 +588,67 @@ class StyleGraphHarness(Harness):
 
 
 register(StyleGraphHarness())
+
+
+# ---------------------------------------------------------------------------
+# document parameter attributes on <tt>: well-formed and malformed values next to time expressions that depend on them
+
+ITTP = "http://www.w3.org/ns/ttml/profile/imsc1#parameter"
+PARAM_ATTRS = [
+  ("ttp:frameRate", ["25", "30"], ["0", "x", "-1", "", "2.5"]),
+  ("ttp:frameRateMultiplier", ["1000 1001", "1 1"], ["1 0", "0 1", "0 0", "1", "a b", "1001"]),
+  ("ttp:tickRate", ["10", "10000000"], ["0", "x", "", "-5"]),
+  ("tts:extent", ["640px 480px"], ["100px", "100 50", "640px 480px 2px", "10% 10%", "", "px px"]),
+  ("ttp:cellResolution", ["40 20"], ["0 0", "32", "a b", "", "40 0"]),
+  ("ittp:aspectRatio", ["16 9"], ["16 0", "0 9", "x", "16"]),
+  ("ittp:activeArea", ["10% 10% 80% 80%"], ["10% 10%", "a b c d", "", "10 10 80 80"]),
+  ("ttp:displayAspectRatio", ["4 3"], ["4 0", "0 3", "4"]),
+  ("ttp:timeBase", ["media"], ["smpte", "clock", "x"]),
+]
+PARAM_TIMES = [("1s", "2s"), ("10f", "00:00:02:10"), ("30t", "50t"), ("00:00:01.5", "120f")]
+
+
+class ParameterHarness(Harness):
+  name = "c04_parameters"
+  properties = ("C04", "C18")
+  functions = ("imsc.attributes:FrameRateAttribute.extract", "imsc.attributes:TickRateAttribute.extract", "imsc.attributes:ExtentAttribute.extract",
+               "imsc.attributes:CellResolutionAttribute.extract", "imsc.attributes:AspectRatioAttribute.extract",
+               "imsc.attributes:ActiveAreaAttribute.extract", "imsc.utils:parse_time_expression", "imsc.reader:to_model")
+  assumptions = ("concrete documents chosen by selector variables: parameter attribute x value menu x time-expression pair",)
+  outside = ("parameter values outside the menu",)
+  required_witnesses = ("well-formed", "malformed")
+  bounds = {"quick": "%d parameter attributes on <tt> x well-formed/malformed values (zero rates, zero denominators, missing components, "
+                     "wrong units) x 4 begin/end syntaxes (seconds, frames, ticks, clock time with frames)" % len(PARAM_ATTRS),
+            "thorough": "same"}
+  budget_s = {"quick": 60, "thorough": 120}
+  validate_models = 1
+
+  def partitions(self, tier):
+    return [{"attr": i} for i in range(len(PARAM_ATTRS))]
+
+  def body(self, ex, params):
+    name, good, bad = PARAM_ATTRS[params["attr"]]
+    vals = [(v, True) for v in good] + [(v, False) for v in bad]
+    val, ok = vals[ex.choice("value", len(vals))]
+    b, e = PARAM_TIMES[ex.choice("times", len(PARAM_TIMES))]
+    xml = tt_doc('<div><p begin="%s" end="%s">X</p><p begin="0.5s">Y</p></div>' % (b, e), "",
+                 'xmlns:ittp="%s" %s="%s"' % (ITTP, name, val))
+    with Quiet():
+      doc, exc = call(ex, lambda: imsc_reader.to_model(et.ElementTree(et.fromstring(xml))))
+    det = {"attr": name, "well_formed": ok, "times": b + ".." + e, "_value": val}
+    ex.witness("well-formed" if ok else "malformed")
+    if exc:
+      if not isinstance(exc[0], (ValueError, et.ParseError)):
+        ex.fail("C18:imsc-reader-raises", dict(det, site=exc[1], exc=type(exc[0]).__name__))
+      return
+    if "C04" not in ex.active or doc is None:
+      return
+    # the paragraph timed in plain seconds never depends on the parameter: it is still there, starting at 1/2 s
+    ps = [x for x in doc.get_body().dfs_iterator() if isinstance(x, model.P)] if doc.get_body() is not None else []
+    ex.prove(len(ps) == 2 and ps[1].get_begin() == Fraction(1, 2), "C04:well-formed-neighbour-unchanged", det)
+    _, exc = call(ex, ISD.from_model, doc, Fraction(3, 4))
+    if exc:
+      ex.fail("C18:snapshot-raises", dict(det, site=exc[1], exc=type(exc[0]).__name__, tags=["c04-parameters"]))
+
+
+register(ParameterHarness())
